@@ -13,3 +13,9 @@ pub assume_specification[ usize::pow ](a: usize, e: u32) -> (r: usize)
 
 pub assume_specification[ i32::unsigned_abs ](x: i32) -> (r: u32)
     ensures r as int == (if x >= 0 { x as int } else { -(x as int) });
+
+// std::cmp::min on usize (R12: `min(a, b)` with `use std::cmp::min` in scope -> usize_min(a, b))
+#[verifier::external_body]
+pub fn usize_min(a: usize, b: usize) -> (r: usize)
+    ensures r == (if a <= b { a } else { b }),
+{ core::cmp::min(a, b) }
